@@ -37,6 +37,26 @@ func (d *Dependencies) ConfigPath() string {
 	return d.configPath
 }
 
+// ConfigFor returns the configuration that applies to an analysis of targetPath
+// and the file it was read from. A configured file (PYSCN_CONFIG) is used as is;
+// otherwise .pyscn.toml / pyproject.toml are searched from the target upward, as
+// AnalyzeUseCase does for analyze_code and the command line. Without a project
+// file the configuration loaded at start-up applies and the path is empty.
+func (d *Dependencies) ConfigFor(targetPath string) (*config.Config, string, error) {
+	resolved, err := config.NewTomlConfigLoader().ResolveConfigPath(d.configPath, targetPath)
+	if err != nil {
+		return nil, "", err
+	}
+	if resolved == "" || resolved == d.configPath {
+		return d.config, resolved, nil
+	}
+	cfg, err := config.LoadConfig(resolved)
+	if err != nil {
+		return nil, "", err
+	}
+	return cfg, resolved, nil
+}
+
 // BuildAnalyzeUseCase assembles a fresh AnalyzeUseCase with injected dependencies.
 func (d *Dependencies) BuildAnalyzeUseCase() (*app.AnalyzeUseCase, error) {
 	return buildAnalyzeUseCase(d.fileReader)
